@@ -1,0 +1,40 @@
+//go:build verif
+
+package res
+
+import "sync/atomic"
+
+// This file is only compiled with the "verif" build tag. It exposes
+// instrumentation points used by external runtime monitors. With the tag off,
+// verif_off.go provides an empty verifPoint that the compiler removes.
+
+var verifHook atomic.Value // of func(point string, arg interface{})
+
+// SetVerifHook installs a callback invoked at every instrumentation point.
+// Passing nil removes the callback.
+func SetVerifHook(f func(point string, arg interface{})) {
+	if f == nil {
+		f = func(string, interface{}) {}
+	}
+	verifHook.Store(f)
+}
+
+func verifPoint(point string, arg interface{}) {
+	if f, ok := verifHook.Load().(func(string, interface{})); ok {
+		f(point, arg)
+	}
+}
+
+// VerifState returns a snapshot of the service's worker state, read under the
+// service's own mutex.
+func (s *Service) VerifState() (state int32, queueNil bool, queued int, groups int) {
+	s.mu.Lock()
+	defer s.mu.Unlock()
+	return atomic.LoadInt32(&s.state), s.workqueue == nil, len(s.workqueue), len(s.rwork)
+}
+
+// Unexported validators, exposed for monitors.
+var (
+	VerifIsValidPart = isValidPart
+	VerifIsValidPath = isValidPath
+)
